@@ -15,7 +15,10 @@ class SharedFormula(Harness):
         self.names = [s.name for s in fskel.SKELETONS]
         self.small = ([2, 12], [2, 5]) if tier == 'quick' else ([1, 30], [1, 12])
         self.doc = 'CellFormula::set_attributes for a shared-formula child (<f t="shared" si="0"/>) whose anchor formula was registered through the real tokenizer: the text shown for the child is the anchor text translated by (child - anchor) on all relative parts, $ parts untouched'
-        self.bounds = {'skeletons': self.names, 'single_slot_domain': 'whole grid', 'multi_slot_domain': {'columns': self.small[0], 'rows': self.small[1]}, 'anchor_and_child': 'columns 2..5, rows 2..5, child at or right of / below the anchor (offsets 0..3)', 'locks': 'slot 0: all four, slot 1: none/both, others relative'}
+        self.bounds = {'skeletons': self.names, 'single_slot_domain': 'whole grid', 'multi_slot_domain': {'columns': self.small[0], 'rows': self.small[1]}, 'anchor_and_child': 'columns 2..5, rows 2..5, child at or right of / below the anchor (offsets 0..3)', 'ref': 'any rectangle in 1..6 x 1..6 holding anchor and child (the anchor need not be its first corner); the anchor registers the block through the real set_attributes', 'locks': 'slot 0: all four, slot 1: none/both, others relative'}
+    def setup(self, it):
+        from engine import xmlmodel
+        xmlmodel.install(it); xmlmodel.install_events(it)
     def run(self, it, ctx, res):
         k = ctx.sym_int('skel', 0, len(self.names) - 1); k = next(i for i in range(len(self.names)) if ctx.branch(k == i))
         sk = fskel.by_name(self.names[k])
@@ -39,14 +42,24 @@ class SharedFormula(Harness):
                 if conds and ctx.branch(z3.Or(*conds)): leaves = True
             if leaves: dead.add(id(t))
         info = {'skeleton': sk.name}
-        attrs = {'t': 'shared', 'si': '0'}
+        # the block's ref: any rectangle that holds anchor and child; the anchor need not be its first corner
+        c1 = ctx.sym_int('ref_c1', 1, 5); r1 = ctx.sym_int('ref_r1', 1, 5); c2 = ctx.sym_int('ref_c2', 2, 6); r2 = ctx.sym_int('ref_r2', 2, 6)
+        ctx.assume(z3.And(c1 <= ac, r1 <= ar, c2 >= cc, r2 >= cr))
+        ref_text = sym_coord(ctx, c1, r1, False, False, 'rf1') + [58] + sym_coord(ctx, c2, r2, False, False, 'rf2')
+        attrs = {'t': S('shared'), 'si': S('0'), 'ref': SStr(ref_text)}
         def get_attribute(it_, e, key):
             kname = ''.join(chr(b) for b in deref_all(key))
-            return SOME(S(attrs[kname])) if kname in attrs else NONE()
+            return SOME(SStr(list(attrs[kname].chars))) if kname in attrs else NONE()
         it.stubs = {'reader::driver::get_attribute': get_attribute}
         try:
-            toks = it.call(FML + 'parse_to_tokens::<std::string::String>', [SStr([61] + text)])
-            shared = containers.HMap(); shared.items.append([0, [SStr(sym_coord(ctx, ac, ar, False, False, 'an')), toks]])
+            # the anchor cell registers the block through the real reader code (formula text as the element's text node)
+            from engine import xmlmodel
+            shared = containers.HMap()
+            anchor_cf = Box_(it.call('<structs::cell_formula::CellFormula as std::default::Default>::default', []))
+            rd = xmlmodel.XmlReader([Adt('Text', [xmlmodel.TextObj(xmlmodel._partial(it, text))]), Adt('End', [xmlmodel.EndObj('f')])], trim=True)
+            it.call(CF + 'set_attributes::<&[u8]>', [Ref(anchor_cf), Ref(Box_(rd)), Ref(Box_('BYTESSTART')), False, sref(SStr(sym_coord(ctx, ac, ar, False, False, 'an'))), Ref(Box_(shared))])
+            if len(shared.items) != 1: self.fail(ctx, res, 'anchor-registers-the-block', 'shared list has %d entries' % len(shared.items), info=info); return
+            del attrs['ref']
             cf = Box_(it.call('<structs::cell_formula::CellFormula as std::default::Default>::default', []))
             it.call(CF + 'set_attributes::<&[u8]>', [Ref(cf), Ref(Box_('READER')), Ref(Box_('BYTESSTART')), True, sref(SStr(sym_coord(ctx, cc, cr, False, False, 'ch'))), Ref(Box_(shared))])
             out = deref_all(it.call(CF + 'get_text', [Ref(cf)]))
@@ -57,11 +70,11 @@ class SharedFormula(Harness):
         self.oblige(ctx, res, 'child==translate(anchor, child-anchor)', any_eq(out.chars, variants), info=info)
     def case_of(self, v):
         m = v['model']; sk = fskel.by_name(self.names[m['skel']])
-        c = {'skeleton': sk.name, 'formula': fskel.concrete_text(sk, fskel.model_vals(sk, m)), 'anchor': [m['anchor_c'], m['anchor_r']], 'child': [m['child_c'], m['child_r']]}
+        c = {'skeleton': sk.name, 'formula': fskel.concrete_text(sk, fskel.model_vals(sk, m)), 'anchor': [m['anchor_c'], m['anchor_r']], 'child': [m['child_c'], m['child_r']], 'ref': coord_str(m.get('ref_c1', 1), m.get('ref_r1', 1), 0, 0) + ':' + coord_str(m.get('ref_c2', 6), m.get('ref_r2', 6), 0, 0)}
         c['show'] = dict(c); return c
     def confirm(self, case, profile):
         (ac, ar), (cc, cr) = case['anchor'], case['child']
-        r = native.run_cases([['shared_formula', case['formula'], coord_str(ac, ar, 0, 0), coord_str(cc, cr, 0, 0)]], profile, timeout_each=60)[0]
+        r = native.run_cases([['shared_formula', case['formula'], coord_str(ac, ar, 0, 0), coord_str(cc, cr, 0, 0), case.get('ref', '')]], profile, timeout_each=60)[0]
         exp = ref_translate(case['formula'], cc - ac, cr - ar)
         got = native.unhx(r[1][0]) if r[0] == 'ok' else None
         return (r[0] != 'ok' or got not in exp), 'shared formula %r anchored at %s, child %s reads as %r expected %r' % (case['formula'], coord_str(ac, ar, 0, 0), coord_str(cc, cr, 0, 0), got if r[0] == 'ok' else r, exp[0])
